@@ -1,30 +1,239 @@
-// PTX-subset primitives at w = 32 for the generated executor (ptx_exec_gen.hpp, emitted by tools/ptx2tla.py).
-// One function per operator of spec/Ptx.tla; a .u32 register is uint32_t, a .u64 register uint64_t, CC.CF and
-// predicates are uint32_t 0/1.  No GPU is involved: this executes the *text* of gl64_t.cuh.
+// PTX-subset primitives at W = 32 for the generated executor (ptx_exec_gen.hpp, emitted by tools/ptx2tla.py).
+// One function per operator of spec/Ptx.tla (same names in lower case); U is the unsigned type of the instruction's
+// register width (uint32_t: .b32 .u32 .s32, uint64_t: .b64 .u64 .s64); registers are bit patterns, signed
+// instructions read them in two's complement.  CC.CF and predicates are uint32_t 0/1.  No GPU is involved: this
+// executes the *text* of gl64_t.cuh.
+// ptx::selftest() compares every primitive with its definition in (unsigned) __int128 arithmetic on a corner grid
+// and on pseudo-random operands; harness/drv_ptx.cpp runs it first (a mismatch is an infrastructure failure).
 #pragma once
 #include <cstdint>
+#include <cstdio>
+#include <string>
 namespace ptx
 {
     typedef unsigned __int128 u128;
-    static const uint64_t GL_MOD = 0xffffffff00000001ULL, GL_NEGMOD = 0xffffffffULL;
-    static const uint32_t GL_W = 0xffffffffU;
-    static inline uint32_t addr32(uint32_t x, uint32_t y, uint32_t ci) { return (uint32_t)((uint64_t)x + y + ci); }
-    static inline uint32_t addc32(uint32_t x, uint32_t y, uint32_t ci) { return (uint32_t)(((uint64_t)x + y + ci) >> 32); }
-    static inline uint64_t addr64(uint64_t x, uint64_t y, uint32_t ci) { return (uint64_t)((u128)x + y + ci); }
-    static inline uint32_t addc64(uint64_t x, uint64_t y, uint32_t ci) { return (uint32_t)(((u128)x + y + ci) >> 64); }
-    static inline uint32_t subr32(uint32_t x, uint32_t y, uint32_t bi) { return (uint32_t)((uint64_t)x - y - bi); }
-    static inline uint32_t subb32(uint32_t x, uint32_t y, uint32_t bi) { return (uint64_t)x < (uint64_t)y + bi ? 1u : 0u; }
-    static inline uint64_t subr64(uint64_t x, uint64_t y, uint32_t bi) { return x - y - bi; }
-    static inline uint32_t subb64(uint64_t x, uint64_t y, uint32_t bi) { return (u128)x < (u128)y + bi ? 1u : 0u; }
-    static inline uint32_t mullo(uint32_t x, uint32_t y) { return (uint32_t)((uint64_t)x * y); }
-    static inline uint32_t mulhi(uint32_t x, uint32_t y) { return (uint32_t)(((uint64_t)x * y) >> 32); }
-    static inline uint32_t seteq(uint32_t x, uint32_t y) { return x == y ? 1u : 0u; }
-    static inline uint32_t setne(uint32_t x, uint32_t y) { return x != y ? 1u : 0u; }
-    static inline uint32_t sel32(uint32_t p, uint32_t x, uint32_t y) { return p == 1 ? x : y; }
-    static inline uint64_t sel64(uint32_t p, uint64_t x, uint64_t y) { return p == 1 ? x : y; }
+    typedef __int128 i128;
+    template <class U> struct tr;
+    template <> struct tr<uint32_t> { typedef int32_t S; typedef uint64_t D; static const unsigned bits = 32; };
+    template <> struct tr<uint64_t> { typedef int64_t S; typedef u128 D; static const unsigned bits = 64; };
+
+    // ---- add / sub with carry (CF of sub is the borrow)
+    template <class U> static inline U addr(U x, U y, uint32_t ci) { return (U)(x + y + (U)ci); }
+    template <class U> static inline uint32_t addc(U x, U y, uint32_t ci)
+    {
+        U s = (U)(x + y);
+        uint32_t c1 = s < x ? 1u : 0u;
+        U s2 = (U)(s + (U)ci);
+        return c1 | (s2 < s ? 1u : 0u);
+    }
+    template <class U> static inline U subr(U x, U y, uint32_t bi) { return (U)(x - y - (U)bi); }
+    template <class U> static inline uint32_t subb(U x, U y, uint32_t bi) { return (x < y || (bi && x == y)) ? 1u : 0u; }
+    // ---- products
+    template <class U> static inline U mullo(U x, U y) { return (U)(x * y); }
+    static inline uint32_t mulhi_(uint32_t x, uint32_t y) { return (uint32_t)(((uint64_t)x * y) >> 32); }
+    static inline uint64_t mulhi_(uint64_t x, uint64_t y)
+    {   // schoolbook on 32-bit halves
+        uint64_t x0 = (uint32_t)x, x1 = x >> 32, y0 = (uint32_t)y, y1 = y >> 32;
+        uint64_t p00 = x0 * y0, p01 = x0 * y1, p10 = x1 * y0, p11 = x1 * y1;
+        uint64_t mid = (p00 >> 32) + (uint32_t)p01 + (uint32_t)p10;
+        return p11 + (p01 >> 32) + (p10 >> 32) + (mid >> 32);
+    }
+    template <class U> static inline U mulhi(U x, U y) { return mulhi_(x, y); }
+    template <class U> static inline U mulhis(U x, U y)
+    {   // signed high part from the unsigned one
+        typedef typename tr<U>::S S;
+        U h = mulhi_(x, y);
+        if ((S)x < 0) h = (U)(h - y);
+        if ((S)y < 0) h = (U)(h - x);
+        return h;
+    }
+    static inline uint64_t mulwide(uint32_t x, uint32_t y) { return (uint64_t)x * y; }
+    static inline uint64_t mulwides(uint32_t x, uint32_t y) { return (uint64_t)((int64_t)(int32_t)x * (int64_t)(int32_t)y); }
+    // ---- comparisons, selection
+    template <class U> static inline uint32_t seteq(U x, U y) { return x == y ? 1u : 0u; }
+    template <class U> static inline uint32_t setne(U x, U y) { return x != y ? 1u : 0u; }
+    template <class U> static inline uint32_t setlt(U x, U y) { return x < y ? 1u : 0u; }
+    template <class U> static inline uint32_t setle(U x, U y) { return x <= y ? 1u : 0u; }
+    template <class U> static inline uint32_t setgt(U x, U y) { return x > y ? 1u : 0u; }
+    template <class U> static inline uint32_t setge(U x, U y) { return x >= y ? 1u : 0u; }
+    template <class U> static inline uint32_t setlts(U x, U y) { typedef typename tr<U>::S S; return (S)x < (S)y ? 1u : 0u; }
+    template <class U> static inline uint32_t setles(U x, U y) { typedef typename tr<U>::S S; return (S)x <= (S)y ? 1u : 0u; }
+    template <class U> static inline uint32_t setgts(U x, U y) { typedef typename tr<U>::S S; return (S)x > (S)y ? 1u : 0u; }
+    template <class U> static inline uint32_t setges(U x, U y) { typedef typename tr<U>::S S; return (S)x >= (S)y ? 1u : 0u; }
+    template <class U> static inline U sel(uint32_t p, U x, U y) { return p == 1 ? x : y; }
+    // ---- logic
+    template <class U> static inline U band(U x, U y) { return x & y; }
+    template <class U> static inline U bor(U x, U y) { return x | y; }
+    template <class U> static inline U bxor(U x, U y) { return x ^ y; }
+    template <class U> static inline U notb(U x) { return (U)~x; }
+    static inline uint32_t notp(uint32_t p) { return 1u - p; }
+    template <class U> static inline U neg(U x) { return (U)((U)0 - x); }
+    // ---- shifts (amount clamped to the register width)
+    template <class U> static inline U shl(U x, uint32_t n) { return n >= tr<U>::bits ? (U)0 : (U)(x << n); }
+    template <class U> static inline U shr(U x, uint32_t n) { return n >= tr<U>::bits ? (U)0 : (U)(x >> n); }
+    template <class U> static inline U shrs(U x, uint32_t n)
+    {
+        const U top = (U)1 << (tr<U>::bits - 1);
+        const U fill = (x & top) ? (U)~(U)0 : (U)0;
+        if (n >= tr<U>::bits)
+            return fill;
+        return n == 0 ? x : (U)((x >> n) | (U)(fill << (tr<U>::bits - n)));
+    }
+    // ---- min / max
+    template <class U> static inline U minu(U x, U y) { return x <= y ? x : y; }
+    template <class U> static inline U maxu(U x, U y) { return x >= y ? x : y; }
+    template <class U> static inline U mins(U x, U y) { typedef typename tr<U>::S S; return (S)x <= (S)y ? x : y; }
+    template <class U> static inline U maxs(U x, U y) { typedef typename tr<U>::S S; return (S)x >= (S)y ? x : y; }
+    // ---- conversions
+    static inline uint64_t zext(uint32_t x) { return x; }
+    static inline uint64_t sext(uint32_t x) { return (x & 0x80000000u) ? (0xffffffff00000000ULL | x) : (uint64_t)x; }
     static inline uint64_t pack(uint32_t l, uint32_t h) { return ((uint64_t)h << 32) | l; }
     static inline uint32_t lo32(uint64_t v) { return (uint32_t)v; }
     static inline uint32_t hi32(uint64_t v) { return (uint32_t)(v >> 32); }
-    static inline uint32_t neg32(uint32_t x) { return 0u - x; }
-    static inline uint32_t isz(uint64_t v) { return v == 0 ? 1u : 0u; }
+
+    // ------------------------------------------------------------------------------------------- self-test
+    namespace st
+    {
+        struct Ctx { long long n = 0, bad = 0; std::string first; };
+        static inline void chk(Ctx &c, const char *what, unsigned bits, u128 x, u128 y, unsigned k, u128 got, u128 want)
+        {
+            c.n++;
+            if (got == want)
+                return;
+            if (!c.bad++)
+            {
+                char buf[256];
+                snprintf(buf, sizeof buf, "%s<%u>(x=0x%llx y=0x%llx k=%u) = 0x%llx:%016llx, definition gives 0x%llx:%016llx", what, bits,
+                         (unsigned long long)x, (unsigned long long)y, k, (unsigned long long)(got >> 64), (unsigned long long)got,
+                         (unsigned long long)(want >> 64), (unsigned long long)want);
+                c.first = buf;
+            }
+        }
+        // mathematical value of a two's complement pattern, floor division and reduction modulo 2^bits in __int128
+        static inline i128 sv(u128 x, unsigned bits) { return (x >> (bits - 1)) & 1 ? (i128)x - ((i128)1 << bits) : (i128)x; }
+        static inline u128 rg(i128 v, unsigned bits)
+        {
+            i128 m = (i128)1 << bits;
+            i128 r = v % m;
+            return (u128)(r < 0 ? r + m : r);
+        }
+        static inline i128 fdiv(i128 a, i128 d) { i128 q = a / d; return (a % d != 0 && ((a < 0) != (d < 0))) ? q - 1 : q; }
+        // signed 64 x 64 -> high part, by sign-magnitude on unsigned __int128 pieces (the product does not fit i128 as such)
+        static inline u128 mulhis_ref(u128 x, u128 y, unsigned bits)
+        {
+            if (bits == 32)
+                return rg(fdiv(sv(x, 32) * sv(y, 32), (i128)1 << 32), 32);
+            i128 sx = sv(x, 64), sy = sv(y, 64);
+            bool negp = (sx < 0) != (sy < 0);
+            u128 ax = (u128)(sx < 0 ? -sx : sx), ay = (u128)(sy < 0 ? -sy : sy);      // <= 2^63
+            u128 a0 = ax & 0xffffffffULL, a1 = ax >> 32, b0 = ay & 0xffffffffULL, b1 = ay >> 32;
+            u128 lo = a0 * b0, mid = a0 * b1 + a1 * b0, hi = a1 * b1;              // |p| = hi*2^64 + mid*2^32 + lo
+            u128 low = lo + ((mid & 0xffffffffULL) << 32);                          // < 2^65
+            u128 high = hi + (mid >> 32) + (low >> 64);
+            low &= (((u128)1) << 64) - 1;
+            if (!negp)
+                return high & ((((u128)1) << 64) - 1);
+            // floor(-|p| / 2^64) = -high - (low != 0)
+            i128 h = -(i128)high - (low != 0 ? 1 : 0);
+            return rg(h, 64);
+        }
+        template <class U> static inline void pair(Ctx &c, U x, U y, uint32_t k)
+        {
+            const unsigned B = tr<U>::bits;
+            const u128 M = (u128)1 << B;
+            const uint32_t ci = k & 1;
+            const i128 sx = sv(x, B), sy = sv(y, B);
+            chk(c, "addr", B, x, y, ci, addr<U>(x, y, ci), ((u128)x + y + ci) % M);
+            chk(c, "addc", B, x, y, ci, addc<U>(x, y, ci), ((u128)x + y + ci) / M);
+            chk(c, "subr", B, x, y, ci, subr<U>(x, y, ci), rg((i128)x - (i128)y - ci, B));
+            chk(c, "subb", B, x, y, ci, subb<U>(x, y, ci), (i128)x - (i128)y - ci < 0 ? 1 : 0);
+            chk(c, "mullo", B, x, y, 0, mullo<U>(x, y), ((u128)x * y) % M);
+            chk(c, "mulhi", B, x, y, 0, mulhi<U>(x, y), ((u128)x * y) / M);
+            chk(c, "mulhis", B, x, y, 0, mulhis<U>(x, y), mulhis_ref(x, y, B));
+            chk(c, "seteq", B, x, y, 0, seteq<U>(x, y), (u128)x == (u128)y);
+            chk(c, "setne", B, x, y, 0, setne<U>(x, y), (u128)x != (u128)y);
+            chk(c, "setlt", B, x, y, 0, setlt<U>(x, y), (u128)x < (u128)y);
+            chk(c, "setle", B, x, y, 0, setle<U>(x, y), (u128)x <= (u128)y);
+            chk(c, "setgt", B, x, y, 0, setgt<U>(x, y), (u128)x > (u128)y);
+            chk(c, "setge", B, x, y, 0, setge<U>(x, y), (u128)x >= (u128)y);
+            chk(c, "setlts", B, x, y, 0, setlts<U>(x, y), sx < sy);
+            chk(c, "setles", B, x, y, 0, setles<U>(x, y), sx <= sy);
+            chk(c, "setgts", B, x, y, 0, setgts<U>(x, y), sx > sy);
+            chk(c, "setges", B, x, y, 0, setges<U>(x, y), sx >= sy);
+            chk(c, "sel", B, x, y, ci, sel<U>(ci, x, y), ci ? x : y);
+            u128 a = 0, o = 0, e = 0;
+            for (unsigned i = 0; i < B; i++)
+            {
+                unsigned bx = (unsigned)(((u128)x >> i) % 2), by = (unsigned)(((u128)y >> i) % 2);
+                a += (u128)(bx * by) << i;
+                o += (u128)(bx + by - bx * by) << i;
+                e += (u128)((bx + by) % 2) << i;
+            }
+            chk(c, "band", B, x, y, 0, band<U>(x, y), a);
+            chk(c, "bor", B, x, y, 0, bor<U>(x, y), o);
+            chk(c, "bxor", B, x, y, 0, bxor<U>(x, y), e);
+            chk(c, "notb", B, x, 0, 0, notb<U>(x), M - 1 - x);
+            chk(c, "neg", B, x, 0, 0, neg<U>(x), rg(-sx, B));
+            const unsigned kk = k > B ? B : k;
+            chk(c, "shl", B, x, 0, k, shl<U>(x, k), kk == B ? 0 : (((u128)x << kk) % M));
+            chk(c, "shr", B, x, 0, k, shr<U>(x, k), kk == B ? 0 : ((u128)x >> kk));
+            chk(c, "shrs", B, x, 0, k, shrs<U>(x, k), rg(fdiv(sx, (i128)1 << kk), B));
+            chk(c, "minu", B, x, y, 0, minu<U>(x, y), (u128)x < (u128)y ? x : y);
+            chk(c, "maxu", B, x, y, 0, maxu<U>(x, y), (u128)x < (u128)y ? y : x);
+            chk(c, "mins", B, x, y, 0, mins<U>(x, y), rg(sx < sy ? sx : sy, B));
+            chk(c, "maxs", B, x, y, 0, maxs<U>(x, y), rg(sx < sy ? sy : sx, B));
+        }
+        static inline void narrow(Ctx &c, uint32_t x, uint32_t y)
+        {
+            chk(c, "mulwide", 32, x, y, 0, mulwide(x, y), (u128)x * y);
+            chk(c, "mulwides", 32, x, y, 0, mulwides(x, y), rg(sv(x, 32) * sv(y, 32), 64));
+            chk(c, "zext", 32, x, 0, 0, zext(x), x);
+            chk(c, "sext", 32, x, 0, 0, sext(x), rg(sv(x, 32), 64));
+            chk(c, "pack", 32, x, y, 0, pack(x, y), (u128)x + ((u128)y << 32));
+            uint64_t w = ((uint64_t)y << 32) | x;
+            chk(c, "lo32", 64, w, 0, 0, lo32(w), (u128)w % ((u128)1 << 32));
+            chk(c, "hi32", 64, w, 0, 0, hi32(w), (u128)w >> 32);
+            chk(c, "notp", 1, x & 1, 0, 0, notp(x & 1), (x & 1) ? 0 : 1);
+        }
+    }
+    // -> number of mismatches (0 = the table agrees with its definitions); msg = first mismatch
+    static inline long long selftest(std::string &msg, long long *ncmp = nullptr)
+    {
+        st::Ctx c;
+        const uint64_t H[] = {0, 1, 2, 3, 0x7ffffffeULL, 0x7fffffffULL, 0x80000000ULL, 0x80000001ULL, 0xfffffffeULL, 0xffffffffULL};
+        const uint32_t K[] = {0, 1, 2, 31, 32, 33, 63, 64, 65, 0x80000000u, 0xffffffffu};
+        uint64_t words[100];
+        int nw = 0;
+        for (uint64_t h1 : H)
+            for (uint64_t h0 : H)
+                words[nw++] = (h1 << 32) | h0;
+        unsigned ki = 0;
+        for (uint64_t h1 : H)
+            for (uint64_t h0 : H)
+            {
+                for (uint32_t k : K)
+                    st::pair<uint32_t>(c, (uint32_t)h1, (uint32_t)h0, k);
+                st::narrow(c, (uint32_t)h1, (uint32_t)h0);
+            }
+        for (int i = 0; i < nw; i++)
+            for (int j = 0; j < nw; j++)
+                st::pair<uint64_t>(c, words[i], words[j], K[ki++ % (sizeof K / sizeof K[0])]);
+        for (int i = 0; i < nw; i++)
+            for (uint32_t k : K)
+                st::pair<uint64_t>(c, words[i], words[(i * 7 + 3) % nw], k);
+        uint64_t s = 0x9e3779b97f4a7c15ULL;      // splitmix64
+        auto next = [&s]() { uint64_t z = (s += 0x9e3779b97f4a7c15ULL); z = (z ^ (z >> 30)) * 0xbf58476d1ce4e5b9ULL;
+                             z = (z ^ (z >> 27)) * 0x94d049bb133111ebULL; return z ^ (z >> 31); };
+        for (int i = 0; i < 20000; i++)
+        {
+            uint64_t x = next(), y = next(), k = next();
+            st::pair<uint64_t>(c, x, y, (uint32_t)(k % 70));
+            st::pair<uint32_t>(c, (uint32_t)x, (uint32_t)y, (uint32_t)((k >> 8) % 40));
+            st::narrow(c, (uint32_t)(x >> 32), (uint32_t)(y >> 32));
+        }
+        msg = c.first;
+        if (ncmp)
+            *ncmp = c.n;
+        return c.bad;
+    }
 }
